@@ -1,6 +1,8 @@
 import Upf.Proofs.AgentPool
 import Upf.Proofs.AgentWorld
 import Upf.Proofs.TeidRun
+import Upf.Proofs.BessAddDel
+import Upf.Proofs.BessEnd
 /-!
 # C05 — Ending a session reclaims everything it ever acquired (BESS part)
 
@@ -47,6 +49,46 @@ theorem association_forgotten (cfg : Cfg) (w : World) (a : Nat) :
   intro x hx
   have := (List.mem_filter.mp hx).2
   simpa using this
+
+/-- attach / detach on BESS: an accepted establishment followed by the deletion of that session leaves every lookup table as it
+was before the session existed — for every request, world and configuration — whenever the session's SEID is new on the
+association and its rules' keys were not in use (distinct live rules have distinct keys). No number of attach/detach cycles
+grows a table. -/
+theorem attach_detach_restores_tables (cfg : Cfg) (w : World) (a lseid : Nat) (r : EstReq)
+    (h : (establish cfg w a lseid r).2.upSeid.isSome)
+    (hnew : ∀ x ∈ (w.conn a).sessions, x.lseid ≠ lseid)
+    (hfresh : ∀ s : Session, (establish cfg w a lseid r).1.tables = sendAdd cfg w.tables s.pdrs s.fars s.qers →
+      (∀ k ∈ (pdrKV s.pdrs).map (·.1), k ∉ w.tables.pdr.map (·.1)) ∧ (∀ k ∈ (farKV s.fars).map (·.1), k ∉ w.tables.far.map (·.1)) ∧
+      (∀ k ∈ (appQerKV cfg s.qers).map (·.1), k ∉ w.tables.appQer.map (·.1)) ∧
+      (∀ k ∈ (sessQerKV cfg s.qers).map (·.1), k ∉ w.tables.sessQer.map (·.1))) :
+    (deleteSession cfg (establish cfg w a lseid r).1 a lseid).1.tables = w.tables :=
+  establish_then_delete cfg w a lseid r h hnew hfresh
+
+/-- Session Deletion sends the deletion of the stored rules: nothing under one of the session's keys remains in any table -/
+theorem deleted_session_leaves_no_key (cfg : Cfg) (w : World) (a seid : Nat) (s : Session)
+    (h : (w.conn a).sessions.find? (·.lseid = seid) = some s) (e : String × String) :
+    (e.1 ∈ (pdrKV s.pdrs).map (·.1) → e ∉ (deleteSession cfg w a seid).1.tables.pdr) ∧
+    (e.1 ∈ (farKV s.fars).map (·.1) → e ∉ (deleteSession cfg w a seid).1.tables.far) ∧
+    (e.1 ∈ (appQerKV cfg s.qers).map (·.1) → e ∉ (deleteSession cfg w a seid).1.tables.appQer) ∧
+    (e.1 ∈ (sessQerKV cfg s.qers).map (·.1) → e ∉ (deleteSession cfg w a seid).1.tables.sessQer) := by
+  rw [deleteSession_tables cfg w a seid s h]
+  exact ⟨Table.not_mem_without, Table.not_mem_without, Table.not_mem_without, Table.not_mem_without⟩
+
+
+/-- Association Release, read timeout, heartbeat failure (`Shutdown`): afterwards no lookup table has an entry under a key of any
+rule of any session of the association, and nothing was added -/
+theorem released_association_leaves_no_key (cfg : Cfg) (w : World) (a : Nat) (s : Session) (hs : s ∈ (w.conn a).sessions)
+    (m k : String) (hk : (m, k) ∈ s.keys cfg) : ¬ (shutdownConn cfg w a).tables.has m k :=
+  shutdown_leaves_no_key cfg w a s hs m k hk
+theorem release_adds_nothing (cfg : Cfg) (w : World) (a : Nat) (m k : String) (h : (shutdownConn cfg w a).tables.has m k) :
+    w.tables.has m k := shutdown_adds_nothing cfg w a m k h
+
+/-- Session Report Response "session context not found" -/
+theorem reported_unknown_session_leaves_no_key (cfg : Cfg) (w : World) (a seid : Nat) (s : Session)
+    (h : (w.conn a).sessions.find? (·.lseid = seid) = some s) (m k : String) (hk : (m, k) ∈ s.keys cfg) :
+    ¬ (reportContextNotFound cfg w a seid).tables.has m k :=
+  report_leaves_no_key cfg w a seid s h m k hk
+
 
 -- non-vacuity: a session holding address 5 and TEID 3 gives both back
 example : (match (releaseRes (some { free := [6], inv := [(77, 5)] }) { offset := 3, used := fun x => x == 2 } 77 [{ chooseTeid := true, tunnelTEID := 3 }]) with
